@@ -2244,7 +2244,7 @@ pub fn run(ctx: &mut Ctx) {
     ctx.assume("stream negotiations read a canned byte string from the scripted pipe (then EOF) and write into a counting sink; deviations: read chunk unlimited / 1 byte, and one spurious Pending at every read-operation index of every corpus stream");
     ctx.assume("identify: the inbound parsing is inlined in the async `on_outbound_substream` (needs a TransportService); only the generated `Identify::decode` plus the same Multiaddr::try_from / iter().last() calls re-stated in the harness are exercised");
     ctx.assume("bitswap: `Cid::read_bytes` on wantlist entries / block presences is inlined in the async `on_message_received`; the harness re-states those two calls on the raw fields exposed by the seam; wantlist requests and Noise payloads are hand-encoded because their encoders are inlined / randomised (layout cross-checked against a fresh NoiseContext payload)");
-    ctx.assume("substream varint length prefixes are covered by C04, not here; RSA keys are not compiled in (feature off)");
+    ctx.assume("substream varint length prefixes: byte-stream behaviour is C04's; here only 'no panic' on C04's malformed-prefix grammar (default carrier); RSA keys are not compiled in (feature off)");
     ctx.assume("an infinite loop inside a single synchronous call is only detected by a 30 s wall-clock watchdog (never reached on a passing run)");
 
     // Noise transport frames: the only length-prefixed decoder with state (it needs a session); the one place where a
@@ -2266,6 +2266,19 @@ pub fn run(ctx: &mut Ctx) {
         }
         ctx.cov_add("evaluations", n);
         ctx.sub("noise_frame_at_read_ahead_window_end", json!({"cases": n}));
+    }
+    // substream varint length prefixes: C04's malformed-prefix grammar, judged here for "no panic" only
+    {
+        let (n, bad) = super::c04::raw_prefix_panics(3);
+        let mut seen = std::collections::BTreeSet::new();
+        for (sig, what, case) in bad {
+            let sig = format!("panic/substream_length_prefix/{}", sig.rsplit('/').next().unwrap_or(""));
+            if seen.insert(sig.clone()) {
+                ctx.violation(Violation { signature: sig, what, replay: json!({"via": "C04", "case": case}) });
+            }
+        }
+        ctx.cov_add("evaluations", n);
+        ctx.sub("substream_length_prefixes_via_c04", json!({"cases": n}));
     }
     ctx.assume("Noise transport frames are decoded by the stateful NoiseSocket: byte-stream behaviour is C02's; here only 'no panic' on the sweep of a maximum-size frame over every offset near the end of the read-ahead window (read-ahead factors 1 and 5)");
 
@@ -2445,6 +2458,9 @@ pub fn run(ctx: &mut Ctx) {
 pub fn replay(case: &Value) -> Result<String, String> {
     if case["via"] == "C02" {
         return super::c02::replay(&case["case"]);
+    }
+    if case["via"] == "C04" {
+        return super::c04::replay(&case["case"]);
     }
     let dec = case["decoder"].as_str().and_then(Dec::from_name).ok_or("case has no known decoder")?;
     if let Some(kind) = case["roundtrip_kind"].as_str() {
